@@ -2208,7 +2208,16 @@ class CIMInstanceName(_CIMComparisonMixin, SlottedPickleMixin):
                 # which is the precision needed to round-trip double precision
                 # IEE-754 floating point numbers between decimal and binary
                 # without loss.
-                ret.append(repr(value))
+                # Real32/Real64 objects have a debug-style repr(), so the
+                # value is converted to a Python float first.
+                # In addition, repr() omits the fractional part when it uses
+                # the exponent form (e.g. '1e+16'), while the realValue
+                # format of DSP0004 (and thus from_wbem_uri()) requires it.
+                real_str = repr(float(value))
+                mantissa, exp_sep, exponent = real_str.partition('e')
+                if exp_sep and '.' not in mantissa:
+                    real_str = mantissa + '.0e' + exponent
+                ret.append(real_str)
             elif isinstance(value, (CIMInt, int)):
                 # intNN
                 ret.append(str(value))
